@@ -181,6 +181,10 @@ fn one_target<T: Elem>(ctx: &mut Ctx, t: Target<T>) {
             let gen = |rng: &mut Rng, divisor: bool| -> T {
                 let v = if small && rep % 2 == 0 {
                     vals::small_int::<T>(rng, 4)
+                } else if T::FLOAT && rep % 2 == 1 {
+                    // moderate magnitudes of mixed sign: every re-association of a sum changes the low bits, so a
+                    // result that depends on placement (e.g. an alignment-dependent peeling of the loop) shows
+                    vals::scaled_float::<T>(rng, -4, 4)
                 } else {
                     vals::mixed(rng, &bounds, false)
                 };
